@@ -337,7 +337,13 @@ class Analyzer(object):
             if isinstance(base, ast.Name):
                 nm = base.id
                 what = 'item' if isinstance(t, ast.Subscript) else 'attribute %s' % t.attr
-                if nm == 'self' and fi.params and fi.params[0] == 'self':
+                if nm == 'self' and fi.params and fi.params[0] == 'self' and self._class_container(fi, t) and not (isinstance(t, ast.Attribute) and t.value is base):
+                    # self.X[...] = v / self.X.y = v  where X is a mutable container defined in the CLASS body: one object for all
+                    # instances (and threads), whoever the receiver is
+                    a0 = self._class_container(fi, t)
+                    writes.append((('class', fi.cls.__name__ if fi.cls else '?', a0), node, lk,
+                                   'stores an %s of the class-level container %s (shared by all instances)' % (what, a0), None))
+                elif nm == 'self' and fi.params and fi.params[0] == 'self':
                     if shared_self:
                         writes.append((('self', fi.cls.__name__ if fi.cls else '?', getattr(t, 'attr', '[]')), node, lk,
                                        'stores %s on a receiver that is a module-level (shared) instance' % what, val if isinstance(t, ast.Attribute) and t.value is base else None))
@@ -365,6 +371,21 @@ class Analyzer(object):
                         writes.append((('global', fi.func.__module__, nm), node, lk, 'stores an %s of module-level %s' % (what, nm), None))
                 elif nm in shared_params:
                     writes.append((shared_params[nm], node, lk, 'stores an %s of its argument %s (bound to a module-level object by a caller)' % (what, nm), None))
+
+    def _class_container(self, fi, t):
+        """name X if the store target is rooted at self.X and X is a dict / list / set defined in the body of the class (or a base)"""
+        e = t
+        first = None
+        while isinstance(e, (ast.Subscript, ast.Attribute)):
+            if isinstance(e, ast.Attribute) and isinstance(e.value, ast.Name) and e.value.id == 'self':
+                first = e.attr
+            e = e.value
+        if first is None or fi.cls is None:
+            return None
+        for c in getattr(fi.cls, '__mro__', ()):
+            if isinstance(c.__dict__.get(first), (dict, list, set)):
+                return first
+        return None
 
     def _complete_key_memo(self, fi, t, node):
         """`G[key] = value` where key is (a local bound once to) a tuple of plain parameter names covering every parameter"""
